@@ -122,6 +122,11 @@ type Plan struct {
 	// Schedule is the explicit list of context switches (step, task) of a
 	// C12 run; empty for single-task properties.
 	Schedule [][2]int64 `json:"schedule,omitempty"`
+	// Entry and Input make a run explicit in terms of bytes handed to one
+	// decode entry point (C04: gob encodings are not reproducible from a tape
+	// because encoding/gob writes maps in hash order).
+	Entry string `json:"entry,omitempty"`
+	Input []byte `json:"input,omitempty"`
 	// Case is a fully explicit case for enumeration tiers (no tape involved).
 	Case json.RawMessage `json:"case,omitempty"`
 	// Expect is filled in by the minimiser: what a replay must reproduce.
@@ -227,6 +232,12 @@ type Ctx struct {
 	Schedule [][2]int64
 	// Verbose asks for the full trace in the record (replay, samples).
 	Verbose bool
+	// Entry / Input: explicit bytes for one decode entry point (C04 replay).
+	Entry string
+	Input []byte
+	// PlanOut, if set by the workload, replaces the tape-based plan in the
+	// violation record.
+	PlanOut *Plan
 }
 
 // Fail records a violation; only the first one of a run is kept (the run
